@@ -33,17 +33,29 @@ Definition same_values (a b : impl_out) : bool :=
 (* hf / hp: the horizon passed to fit / to predict (None = not passed) *)
 Inductive case :=
   | CRun (leaf : option fc) (s : series) (ups : list (Z * list oq)) (refit : bool)
-         (hf hp : option horizon) (o : impl_out) (k : Z) (o2 : impl_out).
+         (hf hp : option horizon) (o : impl_out) (k : Z) (o2 : impl_out)
+  (* the same with an earlier predict(hpre) after the first j updates, which returned the labels
+     ipre (ipre2 on the shifted series) *)
+  | CRunP (leaf : option fc) (s : series) (ups : list (Z * list oq)) (refit : bool)
+          (hf hp : option horizon) (o : impl_out) (k : Z) (o2 : impl_out)
+          (j : nat) (hpre : horizon) (ipre ipre2 : list Z).
+
+Definition check_run (leaf : option fc) (s : series) (ups : list (Z * list oq)) (refit : bool)
+           (hf hp : option horizon) (o : impl_out) (k : Z) (o2 : impl_out) : bool :=
+  match program_run leaf s ups refit hf hp,
+        program_run leaf (shift_series k s) (map (shift_batch k) ups) refit
+                    (option_map (shift_h k) hf) (option_map (shift_h k) hp) with
+  | Ok m, Ok m2 => check_res m o && check_res m2 o2 && same_values o o2
+  | _, _ => false
+  end.
 
 Definition check (c : case) : bool :=
   match c with
-  | CRun leaf s ups refit hf hp o k o2 =>
-      match program_run leaf s ups refit hf hp,
-            program_run leaf (shift_series k s) (map (shift_batch k) ups) refit
-                        (option_map (shift_h k) hf) (option_map (shift_h k) hp) with
-      | Ok m, Ok m2 => check_res m o && check_res m2 o2 && same_values o o2
-      | _, _ => false
-      end
+  | CRun leaf s ups refit hf hp o k o2 => check_run leaf s ups refit hf hp o k o2
+  | CRunP leaf s ups refit hf hp o k o2 j hpre ipre ipre2 =>
+      check_run leaf s ups refit hf hp o k o2
+      && zlist_eqb (earlier_index s ups j hpre) ipre
+      && zlist_eqb (earlier_index (shift_series k s) (map (shift_batch k) ups) j (shift_h k hpre)) ipre2
   end.
 
 Fixpoint mism (cs : list (Z * case)) : list Z :=
